@@ -4,7 +4,7 @@ use common_lang_types::{
     WithLocationPostfix, derive_display,
 };
 use core::panic;
-use intern::string_key::Intern;
+use intern::{Lookup, string_key::Intern};
 use isograph_lang_types::{
     ArgumentKeyAndValue, ClientScalarSelectableDirectiveSet, DefinitionLocation, NonConstantValue,
     SelectionType, SelectionTypePostfix, TypeAnnotationDeclaration, UnionVariant,
@@ -108,6 +108,15 @@ pub fn get_artifact_path_and_content<TCompilationProfile: CompilationProfile>(
     let mut artifact_path_and_content = get_artifact_path_and_content_impl(db);
     if let Some(header) = config.options.generated_file_header {
         for artifact_path_and_content in artifact_path_and_content.iter_mut() {
+            // JSON has no comments
+            if artifact_path_and_content
+                .artifact_path
+                .file_name
+                .lookup()
+                .ends_with(".json")
+            {
+                continue;
+            }
             artifact_path_and_content.file_content =
                 format!("// {header}\n{}", artifact_path_and_content.file_content).into();
         }
